@@ -15,7 +15,7 @@ def run(tier, seed, work):
     mc = [("MC_Handover.tla", "MC_Handover_quick.cfg" if quick else "MC_Handover_thorough.cfg"),
           # liveness ("never dropped"): under fair scheduling of good blocks every enqueued item is eventually handed over
           ("MC_HandoverLive.tla", "MC_HandoverLive_quick.cfg" if quick else "MC_HandoverLive_thorough.cfg")]
-    per, depth, nj = (2, 25, 6) if quick else (12, 40, 8)
+    per, depth, nj = (3, 25, 6) if quick else (12, 40, 8)
     js = hc.jobs("c06", seed, per, depth, nj) + hc.jobs("c06", seed + 3, per, depth, nj, mode="burst") + hc.jobs("c06", seed + 5, per, depth, max(2, nj // 2), mode="mutations")
     groups = [("Trace_Handover.tla", "Trace_Handover_C06.cfg", js)]
     return verif.run_stateful_check("C06", tier, seed, work, mc_list=mc, groups=groups, key_fn=hc.key,
